@@ -88,6 +88,21 @@ func (e *Query) writeTo(s *strings.Builder) {
 	}
 }
 
+// hasPipe reports whether the query is a pipe, possibly inside parentheses or commas:
+// [(1,.|2)] emits the same instructions as [1,2] but is not a constant array.
+func (e *Query) hasPipe() bool {
+	switch {
+	case e.Op == OpPipe:
+		return true
+	case e.Op == OpComma:
+		return e.Left.hasPipe() || e.Right.hasPipe()
+	case e.Term != nil && e.Term.Type == TermTypeQuery:
+		return e.Term.Query.hasPipe()
+	default:
+		return false
+	}
+}
+
 func (e *Query) toIndexKey() any {
 	if e.Term == nil {
 		return nil
